@@ -41,6 +41,17 @@ def programs(seed, n):
         cfg.pop("version", None)
         progs.append({"id": "c05-%d-dup%d" % (seed, k), "seed": seed * 1000 + 900 + k, "cfg": cfg, "probe": "none",
                       "steps": [{"cmd": "load", "h": 1}, {"cmd": "backup", "files": files}, {"cmd": "backup", "files": files, "h": 1}]})
+    # directed: the needed blobs exist twice, once in packs marked for deletion (forget + prune with a long keep-delete)
+    # and once in the packs a later backup of the same files wrote - only the second copy counts
+    for k in range(max(1, n // 10)):
+        files = gen.rand_files(rng, 3)
+        cfg = gen.rand_cfg(rng)
+        cfg.pop("version", None)
+        progs.append({"id": "c05-%d-marked%d" % (seed, k), "seed": seed * 1000 + 950 + k, "cfg": cfg, "probe": "none",
+                      "steps": [{"cmd": "backup", "files": files}, {"cmd": "forget", "snaps": [0]},
+                                {"cmd": "prune", "opts": {"keep_delete": 1000000, "keep_pack": 0, "max_unused": "unlimited", "max_repack": "10%",
+                                                          "instant": False, "early_delete_index": False}},
+                                {"cmd": "backup", "files": gen.evolve(rng, files) if k % 2 else files}]})
     return progs
 
 
